@@ -228,6 +228,16 @@ def merge_small_tasks(tasks: list[dict], target: int) -> list[list[dict]]:
 # execution
 
 
+def _msg_template(msg: object) -> str:
+    """Error message with its variable parts blanked (reach probe: which diagnostics were exercised)."""
+    import re
+
+    m = str(msg)
+    m = re.sub(r"'[^']*'", "'_'", m)
+    m = re.sub(r"\d+", "N", m)
+    return m[:80]
+
+
 def deliver(entry: str, content: str, base: str, scratch: str, probe: dict | None = None):
     """Outcome of one delivery under the two-phase termination guard."""
     return worldb.guarded(lambda: worldb.run_entry(entry, content, scratch, probe),
@@ -246,7 +256,7 @@ def run_batch(batch: dict) -> dict:
     res = {
         "deliveries": 0, "contents": 0, "distinct": set(), "outcome_kinds": {}, "fault_kinds": {}, "entries": {},
         "syntax_errors": 0, "violations": [], "slow": 0, "eof_probe": {}, "syntax_sites": {}, "samples": [],
-        "cut_short": False, "skipped_deep_nesting": 0,
+        "cut_short": False, "skipped_deep_nesting": 0, "messages": set(),
     }
     env = worldb.SimEnv(scratch)
     env.install()
@@ -291,6 +301,7 @@ def run_batch(batch: dict) -> dict:
                     if o[0] == "syntax":
                         res["syntax_errors"] += 1
                         res["syntax_sites"][o[9]] = res["syntax_sites"].get(o[9], 0) + 1
+                        res["messages"].add(_msg_template(o[2]))
                     key = judge(entry, content, o)
                     if o[0] == "budget":
                         budget_hits += 1
@@ -314,6 +325,7 @@ def run_batch(batch: dict) -> dict:
     res["violations"] = list(per_key.values())
     res["violation_counts"] = counts
     res["distinct"] = len(res["distinct"])
+    res["messages"] = sorted(res["messages"])
     return res
 
 
@@ -391,6 +403,7 @@ def check(prop: str, tier: str, evidence_text: dict) -> int:
     examples: dict[str, dict] = {}
     tr = time.monotonic()
     cut_short = budget_seen = slow_max = 0
+    messages: set[str] = set()
     for idx, (status, res) in kernel.run_tasks(run_batch, batches, wall_timeout=1200.0):
         if status != "ok":
             report.harness(f"batch {idx}: {status}: {res}")
@@ -403,6 +416,7 @@ def check(prop: str, tier: str, evidence_text: dict) -> int:
                 agg[k][kk] = agg[k].get(kk, 0) + vv
         if len(samples) < 6:
             samples.extend(res["samples"][:1])
+        messages.update(res["messages"])
         cut_short += bool(res["cut_short"])
         slow_max = max(slow_max, res.get("slow_max_steps", 0))
         budget_seen += sum(n for k, n in res["violation_counts"].items() if k.startswith("budget|"))
@@ -471,6 +485,8 @@ def check(prop: str, tier: str, evidence_text: dict) -> int:
         "outcome_kinds": agg["outcome_kinds"],
         "syntax_errors_seen": agg["syntax_errors"],
         "syntax_error_raise_sites": agg["syntax_sites"],
+        "distinct_diagnostic_messages_seen": len(messages),
+        "diagnostic_messages_sample": sorted(messages)[:40],
         "eof_injected_while": agg["eof_probe"],
         "slow_inputs_rechecked_under_step_clock": agg["slow"],
         "batches_cut_short_by_nontermination_breaker": cut_short,
